@@ -525,12 +525,9 @@ def check_loaded(ctx, S, wrong, loaded, text=None):
         if off_grid is not None:
             V("pedal-time-off-tick-grid", f"loaded {kind} event at {off_grid['time']!r}s is not on a tick", S.witness())
         elif g != exp:
-            if set(g) == set(exp) and all(g[k] <= exp[k] for k in g):
-                ctx.ambiguous()                   # exact repetitions of an event collapse (identical lines are read once)
-                ctx.extra["repeated_pedal_events_collapsed"] += 1
-            else:
-                V(f"pedal-events-differ:{kind}", f"loaded {kind} events differ: missing {list((exp - g).elements())[:3]}, unexpected "
-                  f"{list((g - exp).elements())[:3]}", S.witness(controls=S.controls[:20]))
+            # (an exact repetition of an event - same tick, same value - is an event of the stream like any other)
+            V(f"pedal-events-differ:{kind}", f"loaded {kind} events differ: missing {list((exp - g).elements())[:3]}, unexpected "
+              f"{list((g - exp).elements())[:3]}", S.witness(controls=S.controls[:20]))
     others = [c for c in pp.controls if c["number"] not in (64, 67)]
     ctx.check()
     if others:
@@ -844,7 +841,7 @@ def post_load_matchfile(ret, exc, token, a, k):
             else:
                 V(f"note-line-duplicated:{c[0]}", f"load_matchfile returned {c} more often than the file has it", dict(wit, extra=addl[:5]))
     if n_ped != sum(info["pedals"].values()):
-        V("pedal-line-count-differs", f"{sum(info['pedals'].values())} distinct pedal lines in the file, {n_ped} loaded", wit)
+        V("pedal-line-count-differs", f"{sum(info['pedals'].values())} pedal lines in the file, {n_ped} loaded", wit)
     ctx.extra["textual_duplicates_seen"] += info["textual_duplicates"]
     ctx.extra["documented_drops_seen"] += sum(dropped.values())
     return
